@@ -1035,6 +1035,21 @@ pub fn complement_inside_family(pool: &Pool) -> Vec<T> {
             T::Not(b(&a)), T::Opt(Box::new(T::Not(b(&bb)))), T::Opt(b(&T::AllChar)), T::Star(Box::new(T::Not(b(&a)))),
             T::Not(Box::new(T::Cat2(b(&bb), b(&T::All)))), T::Opt(b(&a)), T::All,
         ];
+        // the same complements one level down in the head: under a loop, a union, an intersection
+        let mut wrapped: Vec<T> = vec![];
+        for h in &chead {
+            wrapped.push(T::Plus(b(h)));
+            wrapped.push(T::Alt2(b(h), b(&a)));
+            wrapped.push(T::Loop(b(h), 1, Some(2)));
+            wrapped.push(T::And2(b(h), Box::new(T::Not(Box::new(T::Cat2(b(&c), b(&T::All)))))));
+        }
+        for h in &wrapped {
+            for y in [&bb, &c, &ab] {
+                v.push(T::Cat2(b(h), b(y)));
+                v.push(T::Cat2(b(&c), Box::new(T::Cat2(b(h), b(y)))));
+            }
+            v.push(T::Cat2(b(h), Box::new(T::Opt(b(&bb)))));
+        }
         for h in &chead {
             for y in &ntail {
                 let hy = T::Cat2(b(h), b(y));
